@@ -3,6 +3,7 @@
 package main
 
 import (
+	"bytes"
 	"fmt"
 	"math"
 	"reflect"
@@ -309,7 +310,12 @@ func sequenceCheck() *venum.Check {
 			c.Case(fmt.Sprintf("encode-after-failure|%d", i), true)
 			in := map[string]any{"type": e.name, "value": e.want, "encoded_right_after": "a verifShortTagMsg whose 300-byte tag cannot be represented"}
 			safely(c, "roundtrip-no-panic", in, func() {
-				bad := mailbox.NewEnvelop(false, vcodec.Refs()[1], vcodec.Refs()[2], &vcodec.ShortTagMsg{Tag: strings.Repeat("t", 300)})
+				var badMsg any = &vcodec.ShortTagMsg{Tag: strings.Repeat("t", 300)}
+				if i%2 == 1 {
+					// the rejected message had already made its writer grow beyond any "keep small buffers" threshold
+					badMsg = &vcodec.PadTagMsg{Pad: bytes.Repeat([]byte{9}, 70000), Tag: strings.Repeat("t", 300)}
+				}
+				bad := mailbox.NewEnvelop(false, vcodec.Refs()[1], vcodec.Refs()[2], badMsg)
 				if _, err := serialize.EncodeEnvelopWithRemoting(codec, bad); err == nil {
 					c.Fail("unrepresentable-value-rejected", in, "a 300-byte short string was encoded without an error")
 				}
